@@ -1,13 +1,26 @@
 /-
   C12 — Match templates rewrite exactly the matching elements; hints only optimise.
-  Property theorems only; the model is `Genshi/Model/Match*.lean`, helper lemmas are in
-  `Genshi/Lemmas/Match*.lean`.
+  Property theorems only; the model is `Genshi/Model/Match*.lean` (`run`: the eager filter,
+  every content buffered; `runL`: the generator pipeline as an automaton, covers
+  `buffer="false"`), helper lemmas are in `Genshi/Lemmas/Match*.lean`.
+
+  All theorems are parametric in the matcher of each template: any state type `σ` and any
+  `step : σ → Event → Bool → σ × Bool`; `Lawful` (an END undoes its START) is assumed only
+  where stated.  `lawful_single`, `lawful_simple` show the law for the concrete matchers of the
+  driver, `positional_not_lawful` that a position counter breaks it.
 
   OBLIGATIONS (checked by the harness):
-    hints_table
+    hints_table nonmatching_passthrough nonmatching_template_irrelevant
+    declaration_order_pipeline first_match_wins identity_body_is_identity_partial
+    matcher_state_in_sync output_wellnested select_keeps_nesting
+    lawful_single lawful_simple positional_not_lawful
 -/
-import Genshi.Model.Match
+import Genshi.Lemmas.MatchSync
+import Genshi.Lemmas.MatchPipe
+import Genshi.Lemmas.MatchIns
+import Genshi.Lemmas.MatchPath
 import Genshi.Model.MatchPath
+import Genshi.Model.MatchLazy
 import Genshi.Gen.MatchHints
 namespace Genshi.Props.C12
 open Genshi Genshi.Match
@@ -20,5 +33,179 @@ theorem hints_table :
       parseHints b o r == { notBuffered := nb, matchOnce := mo, notRecursive := nr }) = true
     ∧ Genshi.Gen.MatchHints.unknownHints = [] := by
   decide
+
+/-! ### elements that do not match pass through unchanged -/
+
+/-- When no registered template ever answers True (whatever its state), the filter yields the
+    flattened template unchanged: for every stream (well nested or not), every window, all hints. -/
+theorem nonmatching_passthrough {σ : Type} (f start : Nat) (end_ : Option Nat) (items : List (Item σ))
+    (mts : List (MT σ)) (r : List (MT σ) × List Event)
+    (hm : ∀ t ∈ mts, NeverFires t) (hi : ∀ t, Item.reg t ∈ items → NeverFires t)
+    (h : run f start end_ items mts = some r) : r.2 = evs items :=
+  (run_neverFires f start end_ items mts r hm hi h).1
+
+/-- A template whose path matches nothing is irrelevant wherever it is declared: inserting it at
+    any position `k` of the template list (the windows shifted accordingly) gives the same output
+    and leaves the other templates in the same states, whatever the other templates do. -/
+theorem nonmatching_template_irrelevant {σ : Type} (f : Nat) (items : List (Item σ)) (mts : List (MT σ))
+    (r : List (MT σ) × List Event) (k : Nat) (tn : MT σ) (hn : NeverFires tn) (hk : k ≤ mts.length)
+    (h : run f 0 none items mts = some r) :
+    ∃ tn', Shape tn tn' ∧ run f 0 none items (ins tn k mts) = some (ins tn' k r.1, r.2) :=
+  run_ins f 0 none items mts r k tn 0 none hn hk
+    (by intro p; simp) (Or.inl ⟨rfl, rfl⟩) h
+
+/-! ### replacement, select(), declaration order -/
+
+/-- **The firing equation** (the pipeline as the code runs it).  If template `idx` is the one the
+    scan of the window selects for the START `e` of an element with closed content `inner`, then
+    the filter's result for `e · inner · tail · rest'` is: `inner` matched against the window
+    `[start, pre_end)`; the body instantiated with `select()` over `e · innerOut · tail`; *that
+    output matched from index `idx+1`* to the end of the window; the END shown (updateonly) to the
+    templates `start … idx` that tested the START; then the rest of the stream. -/
+theorem declaration_order_pipeline {σ : Type} {f start : Nat} {end_ : Option Nat} {e tail : Event}
+    {inner rest' : List (Item σ)} {mts mts1 : List (MT σ)} {idx : Nat} {t : MT σ}
+    (hS : isStart e = true) (hsc : scan e start end_ 0 mts = (mts1, some idx)) (ht : mts1[idx]? = some t)
+    (hb : t.buffered = true) (hcl : Closed (evs inner)) (htail : isEnd tail = true) :
+    run (f + 1) start end_ (.ev e :: (inner ++ .ev tail :: rest')) mts =
+      (run f start (some (preEnd t idx)) inner (fired t idx mts1)).bind fun q3 =>
+      (run f (idx + 1) end_ (evItems (instantiate t.body (e :: q3.2 ++ [tail]))) q3.1).bind fun q4 =>
+      (run f start end_ rest' (updRange tail start (idx + 1) 0 q4.1)).map fun p => (p.1, q4.2 ++ p.2) :=
+  run_fire hS hsc ht hb hcl htail
+
+/-- The template that fires is the first of the window, in declaration order, whose test accepts
+    the START; every earlier one of the window was asked and declined. -/
+theorem first_match_wins {σ : Type} (e : Event) (s : Nat) (en : Option Nat) (mts : List (MT σ)) (idx : Nat)
+    (h : (scan e s en 0 mts).2 = some idx) :
+    inWindow s en idx = true ∧ (∃ t, mts[idx]? = some t ∧ (t.test e false).2 = true) ∧
+    ∀ i x, i < idx → mts[i]? = some x → inWindow s en i = true → (x.test e false).2 = false :=
+  scan_first e s en mts idx h
+
+/-- **Identity bodies.**  If every template either never fires or has the body `${select('.')}`,
+    the filter returns the stream unchanged — whatever the paths, matcher states and hints of the
+    identity templates, for all streams.
+    Full statement (not proved): inserting an identity template into an *arbitrary* template list
+    leaves the output unchanged; the gap is the commutation of the content window `[start, idx+1)`
+    with the body window `[idx+1, end)` for templates that do fire (the whole-document pipeline
+    theorem), which the harness checks on the real code (oracle `identity`). -/
+theorem identity_body_is_identity_partial {σ : Type} (f start : Nat) (end_ : Option Nat)
+    (items : List (Item σ)) (mts : List (MT σ)) (r : List (MT σ) × List Event)
+    (hm : ∀ t ∈ mts, NeverFires t ∨ IdentityBody t)
+    (hi : ∀ t, Item.reg t ∈ items → NeverFires t ∨ IdentityBody t)
+    (h : run f start end_ items mts = some r) : r.2 = evs items :=
+  run_identity f start end_ items mts r hm hi h
+
+/-! ### matcher state and nesting -/
+
+/-- **matcher_state_in_sync.**  Over a well-nested stream (no registrations inside), with matchers
+    in which the END of an element undoes its START, every template of the window that is not
+    retired ends in the state it started in; templates outside the window are not touched.
+    (This is the invariant behind the `updateonly` calls: every matcher sees a well-nested
+    sequence of STARTs and ENDs.  On the unrepaired code the templates declared before the
+    matching one never saw the END — fix a0b8e40.) -/
+theorem matcher_state_in_sync {σ : Type} (f start : Nat) (end_ : Option Nat) (items : List (Item σ))
+    (mts : List (MT σ)) (r : List (MT σ) × List Event)
+    (hnr : NoReg items) (hl : ∀ t ∈ mts, Lawful t) (hb : ∀ t ∈ mts, BodyOK t.body)
+    (hn : Neutral (evs items)) (h : run f start end_ items mts = some r) :
+    r.1.length = mts.length ∧
+    ∀ i t, mts[i]? = some t → ∃ t', r.1[i]? = some t' ∧ Shape t t' ∧
+      (t'.retired = true ∨ t'.st = t.st) ∧
+      (inWindow start end_ i = false → t'.st = t.st ∧ t'.retired = t.retired) := by
+  obtain ⟨hlen, hs⟩ := run_sync f start end_ items mts r hnr hl hb h [] [] (hn [])
+  refine ⟨hlen, ?_⟩
+  intro i t ht
+  obtain ⟨t', ht', hsh, hout, hin⟩ := hs i t ht
+  refine ⟨t', ht', hsh, ?_, hout⟩
+  cases hw : inWindow start end_ i with
+  | false => exact Or.inr (hout hw).1
+  | true =>
+    have := hin hw t.st (Or.inr rfl)
+    rcases this with h1 | h1
+    · exact Or.inl h1
+    · exact Or.inr (by simpa [openSt] using h1)
+
+/-- **The output is well nested** whenever the flattened template is and the bodies of the match
+    templates are (they come out of the XML parser), for all template lists, windows and hints. -/
+theorem output_wellnested {σ : Type} (f start : Nat) (end_ : Option Nat) (items : List (Item σ))
+    (mts : List (MT σ)) (r : List (MT σ) × List Event)
+    (hm : ∀ t ∈ mts, BodyOK t.body) (hi : ∀ t, Item.reg t ∈ items → BodyOK t.body)
+    (hw : WellNested (evs items)) (h : run f start end_ items mts = some r) : WellNested r.2 := by
+  rw [wellNested_iff_track] at hw ⊢
+  exact run_track f start end_ items mts r hm hi h [] [] hw
+
+/-- Whatever `select(p)` extracts from well-nested content is well nested (each of the six body paths). -/
+theorem select_keeps_nesting (s : Sel) (content : List Event) (h : WellNested content) :
+    WellNested (select s content) := by
+  rw [wellNested_iff_track] at h ⊢
+  have hc : Closed content := by
+    obtain ⟨k, h1, h2⟩ := track_some_lvl content [] [] h
+    simp at h2; subst h2; exact h1
+  exact select_neutral s (neutral_of_closed hc h).2 []
+
+/-! ### the concrete matchers of the driver and the law -/
+
+/-- SingleStepStrategy without a positional predicate keeps no state: it is lawful. -/
+theorem lawful_single (name : Option Str) (body : List BItem) (h : Hints) :
+    Lawful (mkMT (.single name none) body h) := by
+  intro st tg at_ u u'
+  simp only [mkMT, MT.ofHints, PathSpec.step]
+  split <;> rfl
+
+/-- SimplePathStrategy pushes one stack entry per START and pops one per END: it is lawful. -/
+theorem lawful_simple (frags : List (List Str)) (body : List BItem) (h : Hints) :
+    Lawful (mkMT (.simple frags) body h) := by
+  intro st tg at_ u u'
+  simp only [mkMT, MT.ofHints, PathSpec.step, simpleStart_tail]
+
+/-- A positional predicate counts START events: the END does not undo it, the law fails
+    (its counter is per test closure, advanced by every call). -/
+theorem positional_not_lawful :
+    ¬ Lawful (mkMT (.single none (some 2)) [] ⟨false, false, false⟩) := by
+  intro h
+  have := h {} ⟨[], ['a']⟩ [] false false
+  simp [mkMT, MT.ofHints, PathSpec.step, nameTest] at this
+
+/-! ### non-vacuity: the hypotheses are satisfiable on non-trivial inputs -/
+
+section Examples
+def S (c : Char) : Event := .start ⟨[], [c]⟩ []
+def E (c : Char) : Event := .end_ ⟨[], [c]⟩
+def T (c : Char) : Event := .text [c] false
+def noHints : Hints := ⟨false, false, false⟩
+
+/-- `a` → `<w>${select('*')}</w>` -/
+def tWrap : MT PSt := mkMT (.single (some ['a']) none) [.ev (S 'w'), .sel .elems, .ev (E 'w')] noHints
+/-- `a/b` → `<x/>` (SimplePathStrategy) -/
+def tAB : MT PSt := mkMT (.simple [[['a'], ['b']]]) [.ev (S 'x'), .ev (E 'x')] noHints
+/-- `b` → `${select('.')}` -/
+def tId : MT PSt := mkMT (.single (some ['b']) none) [.sel .self] noHints
+/-- `zz` never matches a document over a b c -/
+def tNever : MT PSt := mkMT (.single (some ['z', 'z']) none) [.ev (T 'k')] noHints
+
+def doc1 : List (Item PSt) :=
+  [.ev (S 'r'), .reg tAB, .reg tWrap, .ev (S 'a'), .ev (S 'b'), .ev (E 'b'), .ev (T 'u'), .ev (E 'a'),
+   .ev (S 'b'), .ev (E 'b'), .ev (E 'r')]
+
+/-- both templates fire: `a/b` inside the content window of `a`, then `a` wraps; the `b` outside `a`
+    passes through (on the unrepaired code it was replaced: the `a/b` matcher never saw `</a>`) -/
+example : render 30 doc1 = some [S 'r', S 'w', S 'x', E 'x', E 'w', S 'b', E 'b', E 'r'] := by decide
+
+/-- the automaton model gives the same, also with `a` unbuffered -/
+example : renderL 30 doc1 = render 30 doc1 := by decide
+example : renderL 30 (doc1.map fun | .reg t => .reg { t with buffered := false } | x => x) = render 30 doc1 := by
+  decide
+
+/-- an identity template fires and leaves the stream unchanged -/
+example : render 30 [.ev (S 'r'), .reg tId, .ev (S 'b'), .ev (T 'u'), .ev (E 'b'), .ev (E 'r')]
+    = some [S 'r', S 'b', T 'u', E 'b', E 'r'] := by decide
+
+/-- inserting a never-matching template in the middle changes nothing -/
+example : render 30 [.ev (S 'r'), .reg tAB, .reg tNever, .reg tWrap, .ev (S 'a'), .ev (S 'b'), .ev (E 'b'),
+    .ev (T 'u'), .ev (E 'a'), .ev (S 'b'), .ev (E 'b'), .ev (E 'r')] = render 30 doc1 := by decide
+
+example : NeverFires (σ := PSt) { step := fun st _ _ => (st, false), st := {}, body := [] } := fun _ _ _ => rfl
+example : BodyOK tWrap.body := by
+  intro st; simp [tWrap, mkMT, MT.ofHints, trackB, track, S, E]
+example : WellNested (evs doc1) := by decide
+end Examples
 
 end Genshi.Props.C12
